@@ -370,6 +370,28 @@ def parsed_kernel(arch, path):
     return mm, sem, parser, kernel
 
 
+X86_TEMPLATES = ["addq $8, %r{a}", "subq $1, %r{a}", "imulq %r{a}, %r{b}", "vaddpd %ymm{v0}, %ymm{v1}, %ymm{v2}", "vmulpd %ymm{v0}, %ymm{v1}, %ymm{v2}",
+                 "vfmadd231pd %ymm{v0}, %ymm{v1}, %ymm{v2}", "vaddsd %xmm{v0}, %xmm{v1}, %xmm{v2}", "vxorpd %ymm{v0}, %ymm{v1}, %ymm{v2}",
+                 "vmovapd {d}(%rax), %ymm{v0}", "vmovapd %ymm{v0}, {d}(%rbx)", "movq %r{a}, %r{b}", "leaq {d}(%rax,%rcx,8), %r{a}",
+                 "vdivpd %ymm{v0}, %ymm{v1}, %ymm{v2}", "cmpq %r{a}, %r{b}"]
+A64_TEMPLATES = ["add x{a}, x{a}, #8", "sub x{a}, x{b}, #1", "mul x{a}, x{b}, x{a}", "fadd d{v0}, d{v1}, d{v2}", "fmul d{v0}, d{v1}, d{v2}",
+                 "fmla v{v0}.2d, v{v1}.2d, v{v2}.2d", "fadd v{v0}.2d, v{v1}.2d, v{v2}.2d", "ldr d{v0}, [x1, #{d}]", "str d{v0}, [x2, #{d}]",
+                 "ldr q{v0}, [x1, x3]", "mov x{a}, x{b}", "fdiv d{v0}, d{v1}, d{v2}", "cmp x{a}, x{b}"]
+
+
+def repeated_entry_kernel(rng, isa):
+    """kernel TEXT in which the same model entry is hit by several lines (different registers): 2-4 templates, each repeated 3-7 times"""
+    T = X86_TEMPLATES if isa == "x86" else A64_TEMPLATES
+    lines = []
+    for t in rng.sample(T, rng.choice([3, 3, 4, 5])):
+        for _ in range(rng.randrange(3, 8)):
+            a, b = rng.sample(range(8, 16), 2)
+            v = rng.sample(range(0, 16), 3)
+            lines.append(t.format(a=a, b=b, v0=v[0], v1=v[1], v2=v[2], d=rng.choice([0, 8, 32, 64])))
+    rng.shuffle(lines)
+    return "\n".join(lines) + "\n"
+
+
 def real_case(arch, path, mode):
     import copy
     mm, sem, parser, kernel = parsed_kernel(arch, path)
